@@ -24,6 +24,7 @@ Section Restart.
 Variable S : Type.
 Variable react : S -> mid -> mstate -> json -> option mstate * list json.
 Variable decode_src : json -> option S.
+Variable resolves : S -> bool.
 Variable src_eqb : S -> S -> bool.
 Variable ord : forall A : Type, list (mid * A) -> list (mid * A).
 Hypothesis ord_perm : forall A l, Permutation (ord A l) l.
@@ -35,23 +36,23 @@ Local Notation crew := (crew S).
 Local Notation mach := (mach S).
 Local Notation chg := (chg S).
 Local Notation entry := (entry S).
-Local Notation present := (present S react decode_src).
-Local Notation run_list := (run_list S react decode_src).
-Local Notation run_machines := (run_machines S react decode_src ord).
-Local Notation process := (process S react decode_src ord).
-Local Notation process_msg := (process_msg S react decode_src src_eqb ord).
+Local Notation present := (present S react decode_src resolves).
+Local Notation run_list := (run_list S react decode_src resolves).
+Local Notation run_machines := (run_machines S react decode_src resolves ord).
+Local Notation process := (process S react decode_src resolves ord).
+Local Notation process_msg := (process_msg S react decode_src resolves src_eqb ord).
 Local Notation get_changed := (get_changed S src_eqb ord).
-Local Notation set_machine := (set_machine S).
+Local Notation set_machine := (set_machine S resolves).
 Local Notation delete_machine := (delete_machine S).
-Local Notation hstep := (hstep S react decode_src src_eqb ord).
-Local Notation run_history := (run_history S react decode_src src_eqb ord).
-Local Notation boot := (boot S ord).
-Local Notation inv := (inv S).
+Local Notation hstep := (hstep S react decode_src resolves src_eqb ord).
+Local Notation run_history := (run_history S react decode_src resolves src_eqb ord).
+Local Notation boot := (boot S resolves ord).
+Local Notation inv := (inv S resolves).
 
 (** ** [set_machine], exactly *)
 Lemma set_machine_machines_eq c m src st :
   machines S (set_machine c m src st)
-  = aset m (set_mach S (aget m (machines S c)) src (option_map defaulted st)) (machines S c).
+  = aset m (set_mach S resolves (aget m (machines S c)) src (option_map defaulted st)) (machines S c).
 Proof. unfold SioCrew.set_machine. destruct (negb _ || _ || _); reflexivity. Qed.
 
 (** ** a generic "preserved by everything" lemma for predicates on the machines *)
@@ -64,7 +65,7 @@ Hypothesis P_rec : forall c m mc s msg st1,
   aget m (machines S c) = Some mc -> m_src S mc = Some s ->
   fst (react s m (m_state S mc) msg) = Some st1 -> P c -> P (record_state S c m mc st1).
 
-Lemma P_do_op c op : P c -> P (do_op S c op).
+Lemma P_do_op c op : P c -> P (do_op S resolves c op).
 Proof.
   unfold do_op. intros I.
   assert (I1 : P (fold_left (fun c0 u => set_machine c0 (fst u) (u_src S (snd u)) (u_state S (snd u)))
@@ -219,7 +220,7 @@ Qed.
 
 (** ** boot *)
 Definition boot_mach (e : entry) : mach :=
-  mk_mach (e_src S e) (match e_state S e with Some s => defaulted s | None => default_state end).
+  mk_mach (resolved S resolves (e_src S e)) (match e_state S e with Some s => defaulted s | None => default_state end).
 Definition boot_chg (e : entry) : chg :=
   mk_chg false (option_map defaulted (e_state S e)) (e_src S e).
 
@@ -251,7 +252,7 @@ Proof.
                               = if String.eqb m k then option_map boot_chg (aget k store) else aget m (cache S c))
                 /\ previous S c1 = previous S c /\ wedged S c1 = wedged S c /\ (good c -> good c1)).
     { unfold c1. destruct (aget k store) as [e|] eqn:Ek.
-      - destruct (set_machine_lookup S c k (e_src S e) (e_state S e)) as (EM & EC & EP & EW).
+      - destruct (set_machine_lookup S resolves c k (e_src S e) (e_state S e)) as (EM & EC & EP & EW).
         split; [|split; [|split; [|split]]]; auto.
         + intros m. rewrite EM, Am. destruct (String.eqb m k); auto.
           simpl. unfold set_mach, boot_mach. destruct (e_state S e); reflexivity.
@@ -331,7 +332,7 @@ Qed.
 Lemma core_del c1 c2 m : core_eq c1 c2 -> core_eq (delete_machine c1 m) (delete_machine c2 m).
 Proof. intros [E1 E2]. split; simpl; congruence. Qed.
 
-Lemma core_do_op c1 c2 op : core_eq c1 c2 -> core_eq (do_op S c1 op) (do_op S c2 op).
+Lemma core_do_op c1 c2 op : core_eq c1 c2 -> core_eq (do_op S resolves c1 op) (do_op S resolves c2 op).
 Proof.
   unfold do_op. intros E.
   assert (E1 : core_eq
@@ -504,7 +505,7 @@ Proof.
   destruct (boot_spec store) as (M & _ & _ & _ & [Bs _]).
   assert (V : forall m, aget m (machines S (boot store)) = aget m (machines S c)).
   { intros m. apply view_of_mach_inj.
-    pose proof (store_tracks_crew S react decode_src src_eqb ord ord_perm src_eqb_sound _ _ _ _ H E m) as T.
+    pose proof (store_tracks_crew S react decode_src resolves src_eqb ord ord_perm src_eqb_sound _ _ _ _ H E m) as T.
     unfold live_view in T. rewrite <- T. rewrite M. unfold store_view.
     destruct (aget m store) as [[es esrc]|] eqn:Es; simpl; auto.
     unfold boot_mach, view_of_mach, view_of_entry. simpl. destruct es as [s|]; auto.
